@@ -357,14 +357,18 @@ def parse (software : Option Str) (comments : Option Str) : Option Software :=
 
 /-! ### Algorithm.get_ssh_version / get_since_text -/
 
+/-- the prefix convention of the database descriptors: `d…` Dropbear, `l1…` libssh, else OpenSSH -/
+def productOfDesc (d : Str) : Str × Str :=
+  match d with
+  | 'd' :: rest => (pDropbear, rest)
+  | 'l' :: '1' :: rest => (pLibSSH, rest)
+  | _ => (pOpenSSH, d)
+
 /-- `Algorithm.get_ssh_version(version_desc)` → (product, version, is_client) -/
 def getSshVersion (desc : Str) : Str × Str × Bool :=
-  let isClient := desc.getLast? = some 'C'
+  let isClient := desc.getLast? == some 'C'
   let d := if isClient then desc.dropLast else desc
-  match d with
-  | 'd' :: rest => (pDropbear, rest, isClient)
-  | 'l' :: '1' :: rest => (pLibSSH, rest, isClient)
-  | _ => (pOpenSSH, d, isClient)
+  ((productOfDesc d).1, (productOfDesc d).2, isClient)
 
 def isCommaSpace (c : Char) : Bool := c = ',' || c = ' '
 
@@ -470,6 +474,18 @@ def admits (software : Option Software) (forServer : Bool) (v : Str) : Bool :=
 /-- the value of `matches` after the loop (`unknown` = `unknown_software`) -/
 def versionFilter (software : Option Software) (unknown forServer : Bool) (v0 : Str) : Bool :=
   unknown || (splitOn ',' v0).any (admits software forServer)
+
+/-! ### Every version string the rating databases mention -/
+
+/-- `(product, version)` for each descriptor of each versions list of a database, in order
+    of appearance (what `Timeframe` is ever fed from that database). -/
+def dbVersionsOf (db : DB) : List (Str × Str) :=
+  db.flatMap fun (_, es) => es.flatMap fun e => (DBm.versions e).flatMap fun o =>
+    match o with
+    | none => []
+    | some v => (splitOn ',' v).filterMap fun d =>
+        let (p, ver, _) := getSshVersion d
+        if ver = [] then none else some (p, ver)
 
 end Version
 end SshAudit
